@@ -15,7 +15,7 @@ LEVEL = "exploration"
 BUILDS = ["rel"]
 BUDGET_S = {"quick": 600, "thorough": 2400}
 RULE = ("Random real git repositories (5-40 files, depth <=4; directories named a, b, b/b, names with spaces and dots, hidden "
-        "files and directories, a .gitignore with dir/, *.gen.py and /rooted patterns) x 0-3 positional globs x 0-3 "
+        "files and directories, dir/, *.gen.py and /rooted ignore patterns spread over .gitignore, .git/info/exclude and the global excludes file) x 0-3 positional globs x 0-3 "
         "--ignore globs drawn from the four documented forms x {no diff, diff inside the globs, diff outside the globs, "
         "diff naming an --ignore'd file, diff that also renames (git mv) one of its files, diff whose only change to an (unbalanced) file is the deletion of its first line} x cwd in {root, a subdirectory} x stdin in {real pty, BLOCKWATCH_TERMINAL_MODE, "
         "pipe}. Some files are symbolic links to regular files. Files in the expected scope carry one healthy block with one line-count violation; every other file is "
@@ -112,6 +112,8 @@ def run_job(job, ctx):
     out = []
     if job.get("k") == "witness-first-lines-deleted":
         return [_witness_first_lines(ctx)]
+    if job.get("k") == "witness-global-excludes":
+        return [_witness_global_excludes(ctx)]
     for j in range(job["n"]):
         r = rng("c15", job["seed"], job["i"], j)
         c = one_case(ctx, r, dict(job, j=j))
@@ -140,8 +142,21 @@ def one_case(ctx, r, desc):
     try:
         # materialise with placeholders to ask git which files are ignored
         run.write_files(root, {p: "placeholder\n" for p in paths})
-        if gitignore:
-            run.write_files(root, {".gitignore": "\n".join(gitignore) + "\n"})
+        # the patterns live in the repository's .gitignore, in .git/info/exclude or in the user's global excludes file
+        gi_where = {}
+        home_ignore = os.path.join(run.clean_env()["HOME"], ".config", "git", "ignore")
+        if os.path.exists(home_ignore):
+            os.unlink(home_ignore)
+        home_in_repo = r.random() < 0.1       # the home directory is the repository itself (then there is no global excludes file)
+        for pat in gitignore:
+            gi_where.setdefault(r.choice([".gitignore", ".gitignore", ".git/info/exclude"] + ([] if home_in_repo else ["global"])), []).append(pat)
+        for where, pats in gi_where.items():
+            if where == "global":
+                os.makedirs(os.path.dirname(home_ignore), exist_ok=True)
+                with open(home_ignore, "w") as f:
+                    f.write("\n".join(pats) + "\n")
+            else:
+                run.write_files(root, {where: "\n".join(pats) + "\n"})
         listed = run.git(root, "ls-files", "-co", "--exclude-standard", "-z").decode("utf-8").split("\0")
         not_ignored = {p for p in listed if p and p != ".gitignore"}
         hidden = {p for p in paths if any(seg.startswith(".") for seg in p.split("/"))}
@@ -281,14 +296,17 @@ def one_case(ctx, r, desc):
             stdin, env = None, dict(TERM)
         else:
             stdin, env = diff, {}
-        if r.random() < 0.1:
-            env = dict(env, HOME=r.choice([root, cwd]))      # the home directory is the repository (or the start directory) itself
+        if home_in_repo:
+            env = dict(env, HOME=root)
         lst = run.run(ctx.bin("rel"), ["list"] + argv, cwd, stdin=stdin, env=env, cpu_limit=60)
         res = run.run(ctx.bin("rel"), argv, cwd, stdin=stdin, env=env, cpu_limit=60)
     finally:
         run.rm(root)
     # -- judge -------------------------------------------------------------------------------
     want = sorted(scope)
+    home_ignore = os.path.join(run.clean_env()["HOME"], ".config", "git", "ignore")
+    if os.path.exists(home_ignore):
+        os.unlink(home_ignore)
     mechanisms = set()
     for p in paths:
         if p in scope:
@@ -309,6 +327,7 @@ def one_case(ctx, r, desc):
     special = sorted({seg for p in diff_files for seg in p.split("/")[:-1] if seg in ("a", "b", "dir with space", "dots.in.name")})
     sets = {"mode": [mode], "mechanisms": sorted(mechanisms), "cwd": ["root" if not cwd_rel else "subdir"],
             "symlinks": ["in-scope" if p in scope else "out-of-scope" for p in links],
+            "ignore_files": sorted(gi_where),
             "diff_noise": (["binary+mode+pure-rename"] if noise else []),
             "deletion_in_diff": ([] if not gone else ["only-deletions" if not diff_files else "with-other-files"]),
             "rename": ([] if not ren else ["same-dir" if os.path.dirname(ren[0]) == os.path.dirname(ren[1]) else "other-dir"]),
@@ -316,9 +335,24 @@ def one_case(ctx, r, desc):
     wit = {"paths": paths, "gitignore": gitignore, "argv": argv, "mode": mode, "cwd": cwd_rel, "diff_files": diff_files, "symlinks": links, "renamed": ren, "probe": probe, "deleted_by_diff": gone,
            "expected_scope": want, "diff": diff.decode("utf-8", "replace")[:3000], "desc": desc}
 
+    # recorded finding (known_findings.json: global-excludes-anchored-from-subdir): patterns with a slash in the *global* excludes
+    # file are resolved against the start directory; from a sub-directory the files they ignore are walked after all
+    # (and, for the same reason, never see a directory above the start directory, e.g. `gen/` when started inside gen/)
+    anchored = gi_where.get("global", [])
+    lost_ign = set()
+    if cwd_rel and anchored:
+        local = [x for w, ps in gi_where.items() if w != "global" for x in ps]
+        lost_ign = {x for x in paths if x not in not_ignored and x not in hidden and not _ignored_by(local, x)}
+
     def bad(sig, summary):
+        if lost_ign and sig.split("/")[1] in ("list-error", "run-error", "list-scope-extra", "list-scope-both", "diag-scope", "diff-file-not-examined"):
+            m1 = re.search(r'file "([^"]+)"', lst.err_text() or res.err_text())
+            named = m1.group(1) if m1 else None
+            listed_extra = set(lst.listing() or {}) - set(want) if lst.cls == "ok" else set()
+            if (named in lost_ign) or (listed_extra and listed_extra <= lost_ign):
+                sig, summary = "C15/global-excludes-anchored-from-subdir", "started in %r with %s in the global excludes file: %s" % (cwd_rel, anchored, summary)
         return Case(VIOLATED, key=key, nontrivial=nontrivial, sig=sig, summary=summary, evals=2, sets=sets,
-                    witness=dict(wit, observed={"list": lst.brief(2500), "run": res.brief(2500)}))
+                    witness=dict(wit, global_excludes=gi_where.get("global"), observed={"list": lst.brief(2500), "run": res.brief(2500)}))
 
     if lst.cls == "wall-timeout" or res.cls == "wall-timeout":
         return Case(INCONCLUSIVE, key=key, summary="wall timeout", evals=2)
@@ -373,6 +407,21 @@ def one_case(ctx, r, desc):
                 counters={"files": len(paths), "poisoned_files": npoison, "in_scope_files": len(want)})
 
 
+def _ignored_by(patterns, path):
+    """The five generated ignore patterns, as git reads them (relative to the repository root)."""
+    segs = path.split("/")
+    for pat in patterns:
+        if pat == "gen/" and "gen" in segs[:-1]:
+            return True
+        if pat == "src/gen/" and path.startswith("src/gen/"):
+            return True
+        if pat == "/rooted" and segs[0] == "rooted":
+            return True
+        if pat in ("*.gen.py", "*.gen.rs") and any(seg.endswith(pat[1:]) for seg in segs):
+            return True
+    return False
+
+
 def emptied_entries(diff):
     """Files whose diff entry is a single hunk with nothing on the new side (`+0,0`) although the file is not deleted
     (`+++` is not /dev/null): what `git diff --unified=0` prints when only the first line(s) of a file are deleted."""
@@ -393,6 +442,30 @@ def emptied_entries(diff):
             hunks.append(line)
     flush()
     return out
+
+
+def _witness_global_excludes(ctx):
+    """Deterministic reproduction of the recorded finding: a pattern with a slash in the user's global excludes file is resolved
+    against the start directory, so from a sub-directory the ignored file is examined."""
+    home_ignore = os.path.join(run.clean_env()["HOME"], ".config", "git", "ignore")
+    os.makedirs(os.path.dirname(home_ignore), exist_ok=True)
+    with open(home_ignore, "w") as f:
+        f.write("src/gen/\n")
+    root = run.make_repo({"src/gen/w.go": '// <block name="poison">\nnever closed\n', "a/ok.go": healthy("a/ok.go", "k0")}, real_git=True)
+    try:
+        at_root = run.run(ctx.bin("rel"), ["list"], root, stdin=None, env=dict(TERM))
+        in_sub = run.run(ctx.bin("rel"), ["list"], os.path.join(root, "a"), stdin=None, env=dict(TERM))
+    finally:
+        run.rm(root)
+        os.unlink(home_ignore)
+    key = h(["witness-global-excludes"])
+    ok = all(x.cls == "ok" and x.listing() is not None and sorted(x.listing()) == ["a/ok.go"] for x in (at_root, in_sub))
+    if ok:
+        return Case(HELD, key=key, nontrivial=False, evals=2, counters={"witness_global_excludes_ok": 1})
+    return Case(VIOLATED, key=key, nontrivial=False, evals=2, sig="C15/global-excludes-anchored-from-subdir",
+                summary="global excludes file with `src/gen/`: from the root %s, from sub-directory a/ %s: %s" % (
+                    at_root.cls, in_sub.cls, in_sub.err_text()[:200]),
+                witness={"global_excludes": "src/gen/", "observed": {"root": at_root.brief(800), "subdir": in_sub.brief(800)}})
 
 
 def _witness_first_lines(ctx):
